@@ -165,6 +165,14 @@ fn notif(c: u8, s: u8) -> NotificationMessage<Vec<u8>> {
     NotificationMessage::from_octets(v).unwrap()
 }
 
+/// the same NOTIFICATION with data octets behind the subcode (a shutdown communication, the offending attribute, ...)
+fn notif_data(c: u8, s: u8, data: &[u8]) -> NotificationMessage<Vec<u8>> {
+    let mut v = vec![0xffu8; 16];
+    v.extend_from_slice(&[0, 21 + data.len() as u8, 3, c, s]);
+    v.extend_from_slice(data);
+    NotificationMessage::from_octets(v).unwrap()
+}
+
 fn details_known(c: u8, s: u8) -> bool { (c == 0 || c == 4) && s != 0 }
 
 pub fn run(args: &[String]) {
@@ -184,9 +192,14 @@ pub fn run(args: &[String]) {
             }
             for c in 0..=255u8 {
                 for s in 0..=255u8 {
-                    let d: Details = notif(c, s).details();
-                    let raw = d.raw();
-                    writeln!(out, "DETAILS {c} {s} {} raw={},{}", dbg_nospace(&d), raw[0], raw[1]).unwrap();
+                    // the details of a NOTIFICATION do not depend on the data octets behind code and subcode: should one of the
+                    // variants with data decode differently, that one is what gets printed
+                    let show = |n: NotificationMessage<Vec<u8>>| { let d: Details = n.details(); let raw = d.raw();
+                        format!("{} raw={},{}", dbg_nospace(&d), raw[0], raw[1]) };
+                    let plain = show(notif(c, s));
+                    let line = [&[s][..], &[c, s][..], &[0, 4][..], &[1, 2, 3, 4, 5][..]].iter()
+                        .map(|d| show(notif_data(c, s, d))).find(|l| *l != plain).unwrap_or(plain);
+                    writeln!(out, "DETAILS {c} {s} {line}").unwrap();
                 }
             }
         }
